@@ -1,9 +1,11 @@
 SPECIFICATION CSpec
 CONSTANTS
-  Ctls = {"c1", "c2", "c3"}
+  Layouts = {10, 20, 30, 11, 21, 22}
 INVARIANT TypeOK
 INVARIANT AtMostOne
 INVARIANT NamesTheActive
-INVARIANT OutsideGroupInactive
+INVARIANT NotBuiltInactive
+INVARIANT ForeignIntact
 PROPERTY HandOver
+PROPERTY Frame
 CHECK_DEADLOCK FALSE
